@@ -157,6 +157,19 @@ CHECKS["C06"] = dict(
     design_ref="DESIGN.md §5 C06",
     note="Trusted: Coq kernel + Reals axioms; closed-form references coded in tools/props/c06.py; femmcli Lua route; tolerance 2e-6 of the field span + 5e-8 of its magnitude.",
     technique="Coq proof (affine exactness by telescoping over closed fans) + closed-form run comparison")
+CHECKS["C19"] = dict(
+    category="proof",
+    text=("26 Coq theorems (real reading, Coquelicot for derivatives/integrals) over a model of CMSolverMaterialProp for all "
+          "monotone tables: H is the Hermite cubic, continuous at knots and everywhere, GetdHdB is the derivative of GetH, "
+          "GetEnergy is the integral of H (is_RInt) inside and beyond the table, affine extrapolation, the monotonicity test as "
+          "written implies dH/dB >= 0 (refuted without monotone data), smoothing keeps monotone tables, GaussSolve as written "
+          "returns the unique solution when it reports success, slopes solve the natural-spline system, straight-line table = "
+          "linear material. The binary64 model reproduces the real class bit for bit (slopes, repair passes, sampled values); "
+          "independent numerical oracle; paired fsolver runs linear vs straight-line table. Partial: termination of the repair "
+          "loop and of the Newton iteration, pivots never vanishing, rounding: observed, not proved."),
+    design_ref="DESIGN.md §5 C19",
+    note="Trusted: Coq kernel, Reals axioms, Classical_Prop.classic and functional extensionality (Coquelicot); hand-written model tied by harness/h_bh.cpp correspondence.",
+    technique="Coq/Coquelicot proof over a hand-written spline model + bit-exact correspondence with the material class")
 PENDING = {}
 def main():
     props = [json.loads(l) for l in open(os.path.join(V, "properties.jsonl"))]
